@@ -31,6 +31,12 @@ def key_of(clause, label, prog, tr, l):
     return "obs:" + clause
 
 
+def keep(r):
+    if r["e"] == "step_end":
+        r["failed"] = r["how"].startswith("raise:")
+    return True
+
+
 def run(chk):
-    eg.standard_run(chk, "C09", ["collect", "fanout"], {"step_start", "collect_ret", "drained"}, key_of=key_of,
-                    nontrivial=nontrivial, extra=extra)
+    eg.standard_run(chk, "C09", ["collect", "fanout"], {"step_start", "step_end", "collect_ret", "drained"}, key_of=key_of,
+                    nontrivial=nontrivial, extra=extra, keep=keep)
